@@ -23,15 +23,16 @@ import (
 )
 
 type vObfCase struct {
-	A          string `json:"a"`
-	Kind       string `json:"kind"`
-	N          int    `json:"n"`
-	EncLen     int    `json:"enc_len"`
-	Randomised bool   `json:"randomised"`
-	WrongKey   string `json:"wrongkey"`
-	Ty         string `json:"ty"`
-	URL        string `json:"url"`
-	Accept     bool   `json:"accept"`
+	A            string `json:"a"`
+	Kind         string `json:"kind"`
+	N            int    `json:"n"`
+	EncLen       int    `json:"enc_len"`
+	Randomised   bool   `json:"randomised"`
+	WrongKey     string `json:"wrongkey"`
+	BufferIntact bool   `json:"buffer_intact"` // the specification: a Reveal leaves the encoding it was given as it was
+	Ty           string `json:"ty"`
+	URL          string `json:"url"`
+	Accept       bool   `json:"accept"`
 }
 
 func vKeyPair(i int) (priv [32]byte, pub []byte) {
@@ -132,6 +133,23 @@ func TestVerifCodecObfuscators(t *testing.T) {
 				}
 				if c.Randomised && c.Kind != "xor" && len(c1) >= 32 && bytes.Equal(c1[:32], c2[:32]) {
 					bad("obf:"+c.Kind+":ephemeral-key-reused", "two encodings carry the same ephemeral public key representative", c, nil)
+				}
+				// Reveal is a function of (encoding, key): ONE buffer, as the station holds it, is tried with another
+				// station's key, then the right key, then the right key again - every attempt must answer as if it were the
+				// first, and must leave the bytes it was given untouched
+				if c.BufferIntact {
+					buf := append(make([]byte, 0, len(c1)), c1...)
+					for step, k := range [][32]byte{otherPriv, priv, priv} {
+						p, err := ob.TryReveal(buf, k)
+						if !bytes.Equal(buf, c1) {
+							bad("obf:"+c.Kind+":decoder-modifies-input", fmt.Sprintf("TryReveal (attempt %d on one buffer) altered the encoded bytes it was given", step+1), c, nil)
+							break
+						}
+						if step > 0 && (err != nil || !bytes.Equal(p, orig)) {
+							bad("obf:"+c.Kind+":roundtrip-repeated", fmt.Sprintf("TryReveal with the right key fails on attempt %d on one buffer (after an attempt with another key): %v", step+1, err), c, nil)
+							break
+						}
+					}
 				}
 				// another station's key
 				p, err := ob.TryReveal(append([]byte(nil), c1...), otherPriv)
